@@ -1,0 +1,1 @@
+//! Verification hooks: `store` (thin pass-through wrappers; feature `verif-hooks` only).
